@@ -22,32 +22,67 @@ PROP_FILE = "Properties/C15.v"
 CORR = ["Corr/MapperCorr.v"]
 
 
-def parse_shootnew(text, decl, pkg):
-    """constructor parameters and accessor tables of a generated *.shootnew.<t>.go"""
+def parse_shootnew(text, decl, spec, side, known):
+    """constructor parameters and accessor tables of a generated *.shootnew.<t>.go; [known]: tables of the
+    shoot-new types parsed before (embedded bases)"""
     tn = decl["name"]
     by_name = {f["name"]: f for f in decl["fields"] if not f["emb"]}
+    embedded = {}
+    for f in decl["fields"]:
+        if f["emb"]:
+            t = f["ty"][1] if f["ty"][0] == "ptr" else f["ty"]
+            embedded[t[2]] = (f["ty"][0] == "ptr", mapgen.struct_decl(spec, t[1], t[2]))
     ctor = []
-    m = re.search(r"func New%s\((.*?)\) \*%s \{\n\treturn &%s\{\n(.*?)\t\}\n\}" % (tn, tn, tn), text, re.S)
+    m = re.search(r"func New%s\((.*?)\) \*%s \{\n\treturn &%s\{\n(.*?)\n\t\}\n\}" % (tn, tn, tn), text, re.S)
     if m:
         params = [p.strip().split(" ")[0] for p in m.group(1).split(",") if p.strip()]
-        lit = dict((b.strip(), a.strip()) for a, b in re.findall(r"^\t\t(\w+):\s*(\w+),$", m.group(2), re.M))
+        where = {}
+        stack = []          # (embedded field name, by pointer)
+        for line in m.group(2).split("\n"):
+            t = line.strip()
+            mo = re.match(r"^(\w+):\s*(&?)[\w.]+\{$", t)
+            if mo:
+                stack.append((mo.group(1), mo.group(2) == "&"))
+                continue
+            if t in ("},", "}"):
+                if stack:
+                    stack.pop()
+                continue
+            mo = re.match(r"^(\w+):\s*(\w+),$", t)
+            if mo:
+                where[mo.group(2)] = (mo.group(1), [x[0] for x in stack], any(x[1] for x in stack))
         for p in params:
-            fld = lit.get(p)
-            if fld is None or fld not in by_name:
+            if p not in where:
                 raise lib.CheckBroken("cannot recover the field of constructor parameter %s of %s" % (p, tn))
-            ctor.append({"field": fld, "path": [fld], "ty": by_name[fld]["ty"]})
+            fld, pre, under_ptr = where[p]
+            d = decl
+            for comp in pre:
+                d = embedded[comp][1]
+            fdecl = [f for f in d["fields"] if f["name"] == fld][0]
+            # extractParamToFieldMap does not look below `&T{...}`: such a parameter is not recognised by the mapper
+            ctor.append({"field": "" if under_ptr else fld, "path": pre + [fld], "ty": fdecl["ty"]})
     accs = []
     pas = {mapgen.to_pascal(n): f for n, f in by_name.items()}
-    g = re.search(r"type %sGetter interface \{\n(.*?)\n\}" % tn, text, re.S)
-    if g:
-        for name in sorted(re.findall(r"^\t(\w+)\(\)", g.group(1), re.M)):
-            f = pas[name]
-            accs.append({"name": name, "ty": f["ty"], "set": False, "path": [f["name"]]})
-    s = re.search(r"type %sSetter interface \{\n(.*?)\n\}" % tn, text, re.S)
-    if s:
-        for name in sorted(re.findall(r"^\t(\w+)\(", s.group(1), re.M)):
-            f = pas[name[3:]]
-            accs.append({"name": name, "ty": f["ty"], "set": True, "path": [f["name"]]})
+
+    def iface(kind, is_set):
+        g = re.search(r"type %s%s interface \{\n(.*?)\n\}" % (tn, kind), text, re.S)
+        res = []
+        if not g:
+            return res
+        for line in g.group(1).split("\n"):
+            t = line.strip()
+            mo = re.match(r"^(\w+)\(", t)
+            if mo:
+                name = mo.group(1)
+                f = pas[name[3:]] if is_set else pas[name]
+                res.append({"name": name, "ty": f["ty"], "set": is_set, "path": [f["name"]]})
+            elif t.endswith(kind) and t[:-len(kind)] in embedded and t[:-len(kind)] in known:
+                b = t[:-len(kind)]
+                for a in known[b][1]:
+                    if a["set"] == is_set:
+                        res.append(dict(a, path=[b] + a["path"]))
+        return sorted(res, key=lambda a: a["name"])
+    accs = iface("Getter", False) + iface("Setter", True)
     return ctor, accs
 
 
@@ -59,6 +94,7 @@ def pre_shootnew(shoot, mod, pair):
         if not names:
             continue
         cwd = mod / pair.sub / sub
+        known = {}
         r = l2.run_shoot(shoot, cwd, ["new", "-getset", "-type=" + ",".join(names)], timeout=60)
         if r["rc"] != 0 or r["panicked"] or r["timed_out"]:
             pair.status = "shoot-failed"
@@ -74,15 +110,17 @@ def pre_shootnew(shoot, mod, pair):
                 return
             text = files[0].read_text()
             pair.generated["new:" + files[0].name] = text
-            if n == spec["root"] or n == [j for j in spec["jobs"] if j["src"] == spec["root"]][0]["dst"]:
-                # instrumentation of the generated setters (not of shoot's output for `map`): record every call, so
-                # that "set exactly once" is observable
-                inst, cnt = re.subn(r"(func \(\w+ \*%s\) (Set\w+)\([^)]*\) \{\n)" % n,
-                                    lambda m: m.group(1) + '\tVerifCalls = append(VerifCalls, "%s")\n' % m.group(2), text)
+            ctor, accs = parse_shootnew(text, d, spec, side, known)
+            known[n] = (ctor, accs)
+            # instrumentation of the generated setters (not of shoot's output for `map`): record every call, so
+            # that "set exactly once" is observable
+            is_root = n == spec["root"] or n == [j for j in spec["jobs"] if j["src"] == spec["root"]][0]["dst"]
+            inst, cnt = re.subn(r"(func \(\w+ \*%s\) (Set\w+)\([^)]*\) \{\n)" % n,
+                                lambda m: m.group(1) + '\tVerifCalls = append(VerifCalls, "%s")\n' % m.group(2), text)
+            if is_root:
                 inst += "\n// VerifCalls records setter calls (added by the verification harness)\nvar VerifCalls []string\n"
-                files[0].write_text(inst)
                 pair.setcalls = dict(getattr(pair, "setcalls", {}), **{side: True})
-            ctor, accs = parse_shootnew(text, d, side)
+            files[0].write_text(inst)
             for j in spec["jobs"]:
                 if side == "src" and j["src"] == n:
                     j["src_ctor"], j["src_acc"], j["src_shootnew"] = ctor, accs, True
@@ -190,7 +228,8 @@ def finding_handlers(run, shoot):
         return mh.witness_outcome(run, shoot, f)
     h = {k: generic for k in ("K_map_setonly_read", "K_map_ctor_func_nil_receiver", "K_map_ctor_ptr_conv",
                               "K_map_ctor_arg_unguarded", "K_map_dash_accessor", "K_map_ctor_from_tag",
-                              "K_map_ctor_priority", "K_map_ctor_no_submap", "K_map_ctor_func_last")}
+                              "K_map_ctor_priority", "K_map_ctor_no_submap", "K_map_ctor_func_last",
+                              "K_map_promoted_accessor_nil")}
     h["K_map_state_leak"] = lambda f: mh.state_leak_outcome(run, shoot, f)
     return h
 
